@@ -11,7 +11,7 @@
    Reverse scans are stated from an arbitrary start cursor: they return what lies strictly below it (with the
    empty cursor: nothing — the behaviour the repository's own tests fix; DESIGN.md S1). *)
 From ZV Require Import Common.Bytes Scan.Consts Scan.Model Scan.ProofsOrder Scan.ProofsIter Scan.ProofsRange Scan.Proofs
-     Scan.ProofsMerge Scan.ProofsCluster.
+     Scan.ProofsMerge Scan.ProofsCluster Scan.ProofsCursor.
 From Coq Require Import Sorting.Sorted ZArith Permutation.
 Open Scope N_scope.
 
@@ -252,7 +252,7 @@ Theorem C13_cluster_scan :
       (request_bound dbs d table m reverse start < fuel)%nat ->
       exists mpages,
         merged_keys compile fuel dbs d reverse table start pat has_count count = (mpages, Done) /\
-        Permutation (concat mpages) (concat (map R (seq 0 (length dbs)))) /\
+        Permutation (concat (map fst mpages)) (concat (map R (seq 0 (length dbs)))) /\
         (length mpages <= Nat.max 1 (request_bound dbs d table m reverse start))%nat.
 Proof. intros. now apply cluster_scan. Qed.
 Print Assumptions C13_cluster_scan.
@@ -268,10 +268,32 @@ Theorem C13_merged_scan :
       (measure rem ts < fuel)%nat ->
       exists mpages,
         miterate call has_count count fuel ts = (mpages, Done) /\
-        Permutation (concat mpages) (remaining_all rem ts) /\
+        Permutation (concat (map fst mpages)) (remaining_all rem ts) /\
         (length mpages <= Nat.max 1 (measure rem ts))%nat.
 Proof. exact merged_iterate. Qed.
 Print Assumptions C13_merged_scan.
+
+(* (11) the text of the merged cursor: what doMergeScan writes — base64( pid ':' base64(cursor) ';' ... ) —
+   is decoded by decodeScanCursor of the next request into the same table, partitions and cursors. base64 and
+   the decimal conversion are parameters; used of them: decoding inverts encoding, their output contains
+   neither ':' nor ';', base64 of a non-empty string is non-empty. *)
+Theorem C13_merged_cursor_roundtrip :
+  forall (b64 : bytes -> bytes) (b64dec : bytes -> option bytes) (itoa : nat -> bytes) (atoi : bytes -> option nat),
+    (forall x, b64dec (b64 x) = Some x) ->
+    (forall x, ~ In scan_node_sep (b64 x) /\ ~ In scan_cursor_sep (b64 x)) ->
+    (forall x, x <> [] -> b64 x <> []) ->
+    (forall p, atoi (itoa p) = Some p) ->
+    (forall p, ~ In scan_node_sep (itoa p) /\ ~ In scan_cursor_sep (itoa p)) ->
+    forall (table : bytes) (mc : mcursor),
+      table <> [] -> ~ In scan_node_sep table -> mc <> [] ->
+      decode_scan_cursor b64dec atoi (table ++ scan_node_sep :: encode_mcursor b64 itoa mc) = Ok (table, mc).
+Proof. exact mcursor_roundtrip. Qed.
+Print Assumptions C13_merged_cursor_roundtrip.
+
+(* the separator the server puts between table and cursor is the one the nodes split at *)
+Theorem C13_separators : scan_node_sep = key_sep /\ scan_node_sep <> scan_cursor_sep.
+Proof. split; [reflexivity|discriminate]. Qed.
+Print Assumptions C13_separators.
 
 (* ---------- non-vacuity: a concrete store ---------- *)
 (* hash t:h = {a, ab, b}, hash t:h2 = {a}, set t:h = {a}; KV keys t:a t:ab t:b t2:a u:a *)
@@ -321,5 +343,25 @@ Example C13_ex_cluster :
     [[encode_kv_key [116;58;97]; encode_kv_key [116;58;98]; encode_kv_key [117;58;97]];
      [encode_kv_key [116;50;58;97]; encode_kv_key [116;58;97;98]]]
     KV false [116] [] [] true 2 =
-  ([[[116;58;97]; [116;58;97;98]]; [[116;58;98]]; []], Done).
+  ([([[116;58;97]; [116;58;97;98]], [(0%nat, [97]); (1%nat, [97;98])]); ([[116;58;98]], [(0%nat, [98])]); ([], [])], Done).
 Proof. vm_compute. reflexivity. Qed.
+
+(* the hypotheses of (11) are satisfiable (by a toy encoding; the real ones are base64 and decimal digits) *)
+Example C13_ex_cursor_hypotheses :
+  exists (b64 : bytes -> bytes) (b64dec : bytes -> option bytes) (itoa : nat -> bytes) (atoi : bytes -> option nat),
+    (forall x, b64dec (b64 x) = Some x) /\
+    (forall x, ~ In scan_node_sep (b64 x) /\ ~ In scan_cursor_sep (b64 x)) /\
+    (forall x, x <> [] -> b64 x <> []) /\
+    (forall p, atoi (itoa p) = Some p) /\
+    (forall p, ~ In scan_node_sep (itoa p) /\ ~ In scan_cursor_sep (itoa p)).
+Proof.
+  exists (map (N.add 256)), (fun s => Some (map (fun b => b - 256) s)),
+         (fun p => repeat 48 (S p)), (fun s => Some (pred (length s))).
+  split; [|split; [|split; [|split]]].
+  - intro x. f_equal. rewrite map_map. rewrite <- (map_id x) at 2. apply map_ext. intro a. lia.
+  - intro x. split; intro H; apply in_map_iff in H; destruct H as [y [Hy _]];
+      unfold scan_node_sep, scan_cursor_sep in Hy; lia.
+  - intros x Hx. destruct x; [congruence|discriminate].
+  - intro p. now rewrite repeat_length.
+  - intro p. split; intro H; apply repeat_spec in H; discriminate.
+Qed.
